@@ -33,17 +33,22 @@ def proof_step(res, pid, allow_axioms=()):
         cov['obligations'] = 1
         cov['discharged'] = 0
         return False
-    path = os.path.join(common.COQ, 'Props', f'{pid}.v')
-    src = open(path).read()
-    src_nc = re.sub(r'\(\*.*?\*\)', '', src, flags=re.S)
-    thms = re.findall(r'^\s*(?:Theorem|Corollary)\s+(\w+)', src_nc, re.M)
-    examples = re.findall(r'^\s*Example\s+(\w+)', src_nc, re.M)
-    rc, out = common.coqc_file(path)
-    if rc != 0:
-        cov['obligations'] = len(thms) or 1
-        cov['discharged'] = 0
-        res.build_log = out[-4000:]
-        return False
+    import glob
+    paths = [os.path.join(common.COQ, 'Props', f'{pid}.v')] + sorted(glob.glob(os.path.join(common.COQ, 'Props', f'{pid}_*.v')))
+    thms, examples, out = [], [], ''
+    for path in paths:
+        src = open(path).read()
+        src_nc = re.sub(r'\(\*.*?\*\)', '', src, flags=re.S)
+        t1 = re.findall(r'^\s*(?:Theorem|Corollary)\s+(\w+)', src_nc, re.M)
+        thms += t1
+        examples += re.findall(r'^\s*Example\s+(\w+)', src_nc, re.M)
+        rc, o1 = common.coqc_file(path)
+        if rc != 0:
+            cov['obligations'] = len(thms) or 1
+            cov['discharged'] = 0
+            res.build_log = o1[-4000:]
+            return False
+        out += '\n' + o1
     # parse assumptions
     blocks = re.split(r'\n(?=Closed under the global context|Axioms:)', '\n' + out)
     axioms = set()
